@@ -165,7 +165,9 @@ def is_facet_inwards(face, faces):
     orient /= np.linalg.norm(orient)  # for single facet numpy is fine
 
     # create a check point by displacing the facet center in facet orientation direction
-    eps = 1e-5  # unfortunately this must be quite a 'large' number :(
+    # the displacement is relative to the facet size, so that the result does not depend
+    # on the length unit in which the vertices are given
+    eps = 1e-5 * np.linalg.norm(v1)  # unfortunately this must be quite a 'large' number :(
     check_point = face.mean(axis=0) + orient * eps
 
     # find out if first point is inwards
@@ -268,6 +270,13 @@ def lines_end_in_trimesh(lines: np.ndarray, faces: np.ndarray) -> np.ndarray:
     https://www.iue.tuwien.ac.at/phd/ertl/node114.html
     to check if the extended line would pass through the triangular facet
     """
+
+    # express all lengths in units of the mesh size, so that the tolerances below
+    # do not depend on the length unit in which the mesh is given
+    size = np.max(np.ptp(faces.reshape((-1, 3)), axis=0))
+    if size > 0:
+        lines = lines / size
+        faces = faces / size
 
     # Part 1 ---------------------------
     normals = v_cross(faces[:, 0] - faces[:, 2], faces[:, 1] - faces[:, 2])
@@ -481,8 +490,9 @@ def mask_inside_trimesh(points: np.ndarray, faces: np.ndarray) -> np.ndarray:
     mask_inside = mask_inside_enclosing_box(points, vertices)
     pts_in_box = points[mask_inside]
 
-    # create test-lines from outside to test-points
-    start_point_outside = np.min(vertices, axis=0) - np.array(
+    # create test-lines from outside to test-points (start point relative to mesh size)
+    size = np.max(np.ptp(vertices, axis=0))
+    start_point_outside = np.min(vertices, axis=0) - size * np.array(
         [12.0012345, 5.9923456, 6.9932109]
     )
     test_lines = np.tile(start_point_outside, (len(pts_in_box), 2, 1))
